@@ -40,7 +40,7 @@ def scenarios(n, kind):
     return out
 
 
-@rule("C02.call-pairing", props=["C02", "C08", "C12", "C13"], min_instances=22, mutants=[
+@rule("C02.call-pairing", props=["C02", "C08", "C10", "C12", "C13"], min_instances=22, mutants=[
     ("binary lookup with swapped key tuples", ("operator_dict", "        keys_out, func = self[mv1.keys(), mv2.keys()]", "        keys_out, func = self[mv2.keys(), mv1.keys()]")),
     ("unary wrapper path calls the unwrapped function of another name", ("operator_dict", "            values_out = self.algebra.numspace[func.__name__](mv.values())", "            values_out = self.algebra.numspace['OTHER'](mv.values())")),
     ("n-ary call passes reversed values", ("operator_dict", "        values_in = tuple(mv.values() for mv in mvs)\n        keys_out, func = self[keys_in]\n        issymbolic", "        values_in = tuple(mv.values() for mv in reversed(mvs))\n        keys_out, func = self[keys_in]\n        issymbolic")),
